@@ -193,6 +193,7 @@ pub fn c09(rep: &mut Report, thorough: bool) {
             case = case.set("slow_chip", slow).set("busy_polls", vec![1, 4]);
         }
         let mut nref = [0usize; 4];
+        let mut nasleep = [0usize; 4];
         let mut any = false;
         for o in &ops {
             let out = rig.apply(o);
@@ -218,6 +219,11 @@ pub fn c09(rep: &mut Report, thorough: bool) {
                     }
                 }
                 nref[ci] = chip.refreshes.len();
+                if chip.triggers_while_asleep.len() > nasleep[ci] {
+                    any = true;
+                    fail(rep, o.name(), "refresh-asleep", vec![format!("chip={}", CHIP_NAMES[ci])], "refresh trigger sent to a sub-display in deep sleep".into(), case.clone());
+                }
+                nasleep[ci] = chip.triggers_while_asleep.len();
             }
         }
         if any {
@@ -335,7 +341,7 @@ pub fn c05(rep: &mut Report, thorough: bool) {
     ];
     // (power-on, refresh) duration pairs: the small grid, plus very long (still finite) periods - a wait that
     // gives up after some number of polls returns while sub-displays are busy
-    const LONG_PULSE: u32 = 10_000;
+    const LONG_PULSE: u32 = 10_007;
     let mut pairs: Vec<(u32, u32)> = Vec::new();
     for dp in &dvals {
         for dr in &dvals {
@@ -542,7 +548,7 @@ pub fn c08(rep: &mut Report, thorough: bool) {
     }
     // hibernate while an asynchronous refresh is still running, on sub-displays that ignore what they receive
     // while busy: hibernate has to wait the refresh out (however long it takes) before the deep-sleep command
-    for (d, skew) in [(3u32, 4usize), (40, 4), (10_000, 4), (10_000, 2)] {
+    for (d, skew) in [(3u32, 4usize), (40, 4), (10_007, 4), (10_007, 2)] {
         let seq = vec![Op12::Write1(small_rows(1)), Op12::BeginRefresh, Op12::Hibernate];
         rep.eval(P);
         let mut rig = Rig12::new(|b| b.busy_mode = BusyMode::Physical);
@@ -689,7 +695,7 @@ pub fn c01_busy(rep: &mut Report, thorough: bool) {
         let skews: Vec<usize> = if thorough { vec![0, 1, 2, 3, 4] } else { vec![4, 3, 0] }; // 4 = all equal
         for skew in skews {
             // (10 000 extra polls: a wait that gives up after some number of polls returns while busy)
-            for extra in if thorough { vec![1u32, 3, 6, 10_000] } else { vec![3u32, 10_000] } {
+            for extra in if thorough { vec![1u32, 3, 6, 10_007] } else { vec![3u32, 10_007] } {
                 rep.eval(P);
                 rep.nontrivial(hash_str(&format!("12c01busy|{}|{}|{}", si, skew, extra)));
                 let mut rig = Rig12::new(|b| b.busy_mode = BusyMode::Physical);
